@@ -25,7 +25,7 @@ META = {
     "technique": "Coq proof over observed IR templates (O-tie) + allocator models with exact-output differential + EVM canary contracts",
 }
 
-COQ_FILES = ["C04/GenChecks.v", "C04/GenLegacy.v", "C04/AllocModel.v", "C04/AllocProofs.v", "C04/LegacyProofs.v", "C04/LegacyTie.v",
+COQ_FILES = ["C04/GenChecks.v", "C04/GenLegacy.v", "C04/GenVenomAlloc.v", "C04/AllocModel.v", "C04/AllocProofs.v", "C04/VenomAllocSeq.v", "C04/LegacyProofs.v", "C04/LegacyTie.v",
              "C04/Frames.v", "C04/Concretize.v", "C04/MemLiveness.v", "C04/Fmp.v", "C04/Checks.v", "C04/PropsC04.v"]
 IMPORTS = "From Verif Require Import C04.AllocModel.\n"
 
@@ -527,6 +527,8 @@ def run(ctx):
             text, st = gen_checks()
         (COQ / "C04" / "GenChecks.v").write_text(text)
         (COQ / "C04" / "GenLegacy.v").write_text(gen_legacy_alloc())
+        from vlib.c04_export import gen_venom_alloc
+        (COQ / "C04" / "GenVenomAlloc.v").write_text(gen_venom_alloc())
         ctx.extra["family_size"] = st["family_size"]
         ctx.extra["syntactic_matches"] = st["family_size"]
         ctx.corr["index_check_family"] = st
@@ -536,18 +538,39 @@ def run(ctx):
     coqrun.build_sequence(["C03/LIR.v", "C03/VSL.v"], force=False)
     b = {"ok": False, "file": "C04/GenChecks.v", "failed_lemma": None, "out": gen_err or ""}
     if gen_err is None:
+        import time as _t
+        _t0 = _t.time()
         b = ctx.coq_build(COQ_FILES)
+        ctx.log(f"coq build {_t.time() - _t0:.1f}s")
     model_ok = (COQ / "C04" / "AllocModel.vo").exists() and (b["ok"] or "AllocModel" not in str(b.get("file", "")))
     if not b["ok"]:
         ctx.extra["syntactic_matches"] = 0
     total, found = 0, False
+    import time as _t
+    _t1 = _t.time()
     n1, f1 = part_venom_alloc(ctx, model_ok, 300 if quick else 3000)
+    ctx.log(f"part venom alloc {_t.time() - _t1:.1f}s")
+    import time as _t
+    _t2 = _t.time()
     n2, f2 = part_legacy_alloc(ctx, model_ok, 150 if quick else 1500)
+    ctx.log(f"part legacy alloc {_t.time() - _t2:.1f}s")
+    import time as _t
+    _t3 = _t.time()
     n3, f3 = part_canaries(ctx, core_configs() if quick else configs("quick"))
+    ctx.log(f"part canaries {_t.time() - _t3:.1f}s")
+    import time as _t
+    _t4 = _t.time()
     n4, f4 = part_frames(ctx, model_ok, 25 if quick else 250)
+    ctx.log(f"part frames {_t.time() - _t4:.1f}s")
     from vlib import c04_canary2, c04_venom
-    n5, f5 = c04_venom.run(ctx, model_ok, 18 if quick else 150)
+    import time as _t
+    _t5 = _t.time()
+    n5, f5 = c04_venom.run(ctx, model_ok, 12 if quick else 150)
+    ctx.log(f"part venom passes {_t.time() - _t5:.1f}s")
+    import time as _t
+    _t6 = _t.time()
     n6, f6 = c04_canary2.run(ctx, core_configs() if quick else configs("quick"))
+    ctx.log(f"part canaries2 {_t.time() - _t6:.1f}s")
     total = n1 + n2 + n3 + n4 + n5 + n6
     found = f1 or f2 or f3 or f4 or f5 or f6
     if (gen_err is not None or not b["ok"]) and not found:
